@@ -94,6 +94,7 @@ fn window_family() -> Vec<u64> {
 }
 
 fn unary(v: u64) -> Vec<Divergence> {
+    set_case(|| json!({"property": "C18", "case": {"kind": "bitboard-unary", "board": format!("{v:#018x}")}}).to_string());
     let mut d = vec![];
     let b = BitBoard::from_u64(v);
     let s = to_set(b);
@@ -186,6 +187,7 @@ fn unary(v: u64) -> Vec<Divergence> {
 
 /// iterator state machine from one board: every suffix state x {next, nth(n), size_hint}
 fn iterator_machine(v: u64, ns: &[usize]) -> (u64, Vec<Divergence>) {
+    set_case(|| json!({"property": "C18", "case": {"kind": "bitboard-iterator", "board": format!("{v:#018x}")}}).to_string());
     let mut d = vec![];
     let mem = members(&to_set(BitBoard::from_u64(v)));
     let mut evals = 0u64;
@@ -276,7 +278,7 @@ fn binary(a: u64, b: u64) -> Option<Divergence> {
 
 pub fn run_c18(args: &Args) -> i32 {
     let report = Report::new("C18", args.tier, args.seed, "exploration");
-    std::panic::set_hook(Box::new(|_| {}));
+    silence_panics();
     let small = small_family();
     let window = window_family();
     let mut all: Vec<u64> = small.clone();
@@ -345,7 +347,7 @@ pub fn run_c18(args: &Args) -> i32 {
     for (a, b, dv) in bad.iter().take(200) {
         report.record(std::slice::from_ref(dv), || json!({"kind": "bitboard-binary", "a": format!("{a:#018x}"), "b": format!("{b:#018x}")}));
     }
-    let _ = std::panic::take_hook();
+    restore_panics();
     let sample = all[(args.seed as usize * 7919 + 4242) % all.len()];
     report.finish(
         json!({
@@ -363,7 +365,7 @@ pub fn run_c18(args: &Args) -> i32 {
 }
 
 pub fn replay_c18(case: &serde_json::Value) -> Vec<Divergence> {
-    std::panic::set_hook(Box::new(|_| {}));
+    silence_panics();
     let parse = |k: &str| u64::from_str_radix(case[k].as_str().unwrap_or("0x0").trim_start_matches("0x"), 16).unwrap();
     match case["kind"].as_str() {
         Some("bitboard-unary") => unary(parse("board")),
